@@ -6,7 +6,7 @@ package lite
 // Cleaning a virtual host: everything from the first Forge separator (NUL) on is dropped, then everything from the first
 // TCPShield separator ("///") on, then surrounding dots.
 //@ func ClearVirtualHost
-//@   props C17 C29
+//@   props C17 C29 C19
 //@   modifies nothing
 //@   at-call Split#1 as s1: assert streq(arg0, name) && streq(arg1, "\x00")
 //@   at-call Split#2 as s2: assert called(s1) && streq(arg0, res(s1)[0]) && streq(arg1, "///")
